@@ -93,7 +93,9 @@ class H3Ops:
                 return None
             else:
                 # get the kth ring
-                ring = h3.k_ring(search_geoid, current_k)
+                # k_ring returns a set; sorted, so that ties between equally distant entities
+                # are broken the same way whatever the interpreter's hash seed is
+                ring = sorted(h3.k_ring(search_geoid, current_k))
 
                 # get all entities in this ring
                 found = (
